@@ -38,7 +38,14 @@ def check_emitted(inp):
     ver, s = inp["ver"], inp["s"]
     prefix, m = ref.parse(ver, s)
     o = obs.classes()[ver](s)
-    fails = _judge(ver, prefix, "clean_vector()", o.clean_vector())
+    pre = inp.get("pre") or []
+    if pre:
+        # other public accessors called first: what is emitted must not depend on what was called before
+        from . import c18
+        A = c18.accessors(ver)
+        for name in pre:
+            A[name](o)
+    fails = _judge(ver, prefix, "clean_vector()" + (" after %s" % pre if pre else ""), o.clean_vector())
     rh = o.rh_vector()
     if "/" not in rh:
         fails.append(failure("score/vector", rh, note="rh_vector()"))
@@ -102,17 +109,24 @@ def hyp_part(n_examples, shard):
         answers, meta = draw(interact.script_strategy(version, allm, order, complete=True))
         return version, allm, answers
 
+    from . import c18
+
+    def vec_case(v):
+        names = sorted(c18.accessors(v))
+        return st.tuples(st.just("vec"), st.just(v), gen.valid_parts(v), st.lists(st.sampled_from(names), max_size=3))
+
     @runner.seeded(8, shard)
     @runner.hyp_settings(n_examples)
-    @given(st.one_of(gen.version_key().flatmap(lambda v: st.tuples(st.just(v), gen.valid_parts(v))), builder_case()))
+    @given(st.one_of(gen.version_key().flatmap(vec_case), builder_case()))
     def t(c):
-        if len(c) == 2:
-            ver, (prefix, d, order) = c
+        if c[0] == "vec":
+            _, ver, (prefix, d, order), pre = c
             V = spec.VERS[ver]
             s = ref.build(prefix, d, order)
             ngroups = sum(1 for g in V.groups.values() if any(d.get(m, V.nd) != V.nd for m in g))
-            part.count({"ver": ver, "s": s}, nontrivial=ngroups >= 2, classes=("v" + ver, "groups=%d" % ngroups))
-            part.check("emitted", check_emitted, {"ver": ver, "s": s}, hyp=True)
+            part.count({"ver": ver, "s": s, "pre": pre}, nontrivial=ngroups >= 2,
+                       classes=("v" + ver, "groups=%d" % ngroups, "with-prior-calls" if pre else "fresh-object"))
+            part.check("emitted", check_emitted, {"ver": ver, "s": s, "pre": pre}, hyp=True)
         else:
             version, allm, answers = c
             inp = {"version": version, "all_metrics": allm, "answers": answers}
@@ -129,9 +143,9 @@ def run(tier, t0):
         part.check("emitted", check_emitted, {"ver": ver, "s": s})
     part.merge(runner.hyp_shards("vf.props.c08", "hyp_part", 6400 if tier == "quick" else 200000))
     rule = ("accepted vectors with every subset of optional metrics (uniform presence, any input order) + deterministic "
-            "covering set (no optional metric; every single optional metric with every value; all optional metrics in two "
+            "covering set, each vector emitted from a fresh object or after up to three other accessor calls (no optional metric; every single optional metric with every value; all optional metrics in two "
             "orders; pairs of metrics from different groups) + interactive answer scripts for every version form and both "
             "modes. non-trivial = vector with >= 2 optional groups defined, or an all-metrics builder run; distinct by hash")
     return runner.finish(part, tier, t0, rule,
                          ["official grammar = vectorString pattern of the pinned FIRST schemas (re.fullmatch)"],
-                         required=("covering", "v2", "v3", "v4", "groups=0", "groups=2", "builder:all", "builder:mandatory"))
+                         required=("covering", "v2", "v3", "v4", "groups=0", "groups=2", "builder:all", "builder:mandatory", "with-prior-calls", "fresh-object"))
